@@ -168,8 +168,23 @@ class from_textfile(Source):
         self.poll_interval = poll_interval
         super().__init__(**kwargs)
 
+    def _read(self):
+        try:
+            position = self.file.tell()
+        except (OSError, ValueError):  # not seekable: nothing to go back to
+            return self.file.read()
+        try:
+            return self.file.read()
+        except UnicodeDecodeError as e:
+            if e.end < len(e.object):
+                raise  # undecodable data, not merely incomplete
+            # the writer is in the middle of a multi-byte character: look
+            # again at the next poll, from where this read started
+            self.file.seek(position)
+            return ''
+
     async def _run(self):
-        line = self.file.read()
+        line = self._read()
         if line:
             self.buffer = self.buffer + line
             if self.delimiter in self.buffer:
